@@ -634,6 +634,10 @@ impl<'source> CodeGenerator<'source> {
 
     fn compile_do(&mut self, do_tag: &ast::Spanned<ast::Do<'source>>) {
         self.compile_call(&do_tag.call, None);
+        // the value of the call is not used: leaving it on the stack would
+        // put it between the operands of whoever runs next on this stack
+        // (a recursive loop call returns to the middle of an expression).
+        self.add(Instruction::DiscardTop);
     }
 
     fn compile_if_stmt(&mut self, if_cond: &ast::Spanned<ast::IfCond<'source>>) {
